@@ -12,103 +12,128 @@ Definition L (s : string) : string := (s ++ String nl "")%string.
 (* ------------------------------------------------------------------ *)
 (* one step of the drain loop *)
 
-Lemma drain_nil : forall fuel fs cwd dir w, drain fuel fs cwd dir w [] = ([], None).
+Lemma drain_nil : forall fuel ft dir w, drain fuel ft dir w [] = ([], None).
 Proof. destruct fuel; reflexivity. Qed.
 
-Lemma item_scan_eq : forall w fs cwd dir bt name par,
-  item_scan w fs cwd dir (bt, name, par) =
-  option_map (scan_file w bt (path_join dir name)) (fs_text fs cwd (path_join dir name)).
+Lemma item_scan_eq : forall w ft dir bt name par,
+  item_scan w ft dir (bt, name, par) =
+  option_map (scan_file w bt (path_join dir name)) (ft (path_join dir name)).
 Proof. reflexivity. Qed.
 
-Lemma item_yields_scan : forall w fs cwd dir it ys qs e,
-  item_scan w fs cwd dir it = Some (ys, qs, e) -> item_yields w fs cwd dir it = ys.
+Lemma item_yields_scan : forall w ft dir it ys qs e,
+  item_scan w ft dir it = Some (ys, qs, e) -> item_yields w ft dir it = ys.
 Proof. intros * H. unfold item_yields. now rewrite H. Qed.
 
-Lemma item_children_scan : forall w fs cwd dir it ys qs e,
-  item_scan w fs cwd dir it = Some (ys, qs, e) -> item_children w fs cwd dir it = qs.
+Lemma item_children_scan : forall w ft dir it ys qs e,
+  item_scan w ft dir it = Some (ys, qs, e) -> item_children w ft dir it = qs.
 Proof. intros * H. unfold item_children. now rewrite H. Qed.
 
-Lemma drain_step_ok : forall f fs cwd dir w it q ys qs,
-  item_scan w fs cwd dir it = Some (ys, qs, None) ->
-  drain (S f) fs cwd dir w (it :: q) =
-    (ys ++ fst (drain f fs cwd dir w (q ++ qs)), snd (drain f fs cwd dir w (q ++ qs))).
+Lemma drain_step_ok : forall f ft dir w it q ys qs,
+  item_scan w ft dir it = Some (ys, qs, None) ->
+  drain (S f) ft dir w (it :: q) =
+    (ys ++ fst (drain f ft dir w (q ++ qs)), snd (drain f ft dir w (q ++ qs))).
 Proof.
-  intros f fs cwd dir w [[bt name] par] q ys qs H.
+  intros f ft dir w [[bt name] par] q ys qs H.
   rewrite item_scan_eq in H. cbn [drain].
-  destruct (fs_text fs cwd (path_join dir name)) as [ls|]; cbn [option_map] in H; [|discriminate].
+  destruct (ft (path_join dir name)) as [ls|]; cbn [option_map] in H; [|discriminate].
   injection H as H. rewrite H.
-  destruct (drain f fs cwd dir w (q ++ qs)) as [ys' e']. reflexivity.
+  destruct (drain f ft dir w (q ++ qs)) as [ys' e']. reflexivity.
 Qed.
 
-Lemma drain_step_missing : forall f fs cwd dir w bt name par q,
-  fs_text fs cwd (path_join dir name) = None ->
-  drain (S f) fs cwd dir w ((bt, name, par) :: q) = ([], Some E_FileNotFound).
-Proof. intros * H. cbn [drain]. now rewrite H. Qed.
+Lemma drain_step_missing : forall f ft dir w it q,
+  item_missing ft dir it ->
+  drain (S f) ft dir w (it :: q) = ([], Some E_FileNotFound).
+Proof. intros f ft dir w [[bt name] par] q H. unfold item_missing, item_path in H. cbn in H. cbn [drain]. now rewrite H. Qed.
 
-Lemma drain_out_of_fuel : forall fs cwd dir w it q,
-  drain 0 fs cwd dir w (it :: q) = ([], Some E_OutOfFuel).
-Proof. intros fs cwd dir w [[bt name] par] q. reflexivity. Qed.
+Lemma drain_out_of_fuel : forall ft dir w it q,
+  drain 0 ft dir w (it :: q) = ([], Some E_OutOfFuel).
+Proof. intros ft dir w [[bt name] par] q. reflexivity. Qed.
 
 (* ------------------------------------------------------------------ *)
-(* a whole generation: the queue holds [cur] followed by the children of the items already done *)
+(* a whole generation: the queue holds [cur] followed by the children of the items already done.
+   Y / C say what each item yields / queues. *)
+Definition scans (w : nat) (ft : opener) (dir : string) (Y : qitem -> list yielded) (C : qitem -> list qitem)
+  (it : qitem) : Prop := item_scan w ft dir it = Some (Y it, C it, None).
 
-Lemma drain_level : forall w fs cwd dir cur fuel rest,
-  Forall (item_ok w fs cwd dir) cur -> List.length cur <= fuel ->
-  drain fuel fs cwd dir w (cur ++ rest) =
-    (flat_map (item_yields w fs cwd dir) cur ++
-       fst (drain (fuel - List.length cur) fs cwd dir w (rest ++ next_gen w fs cwd dir cur)),
-     snd (drain (fuel - List.length cur) fs cwd dir w (rest ++ next_gen w fs cwd dir cur))).
+Lemma drain_level : forall w ft dir Y C cur fuel rest,
+  Forall (scans w ft dir Y C) cur -> List.length cur <= fuel ->
+  drain fuel ft dir w (cur ++ rest) =
+    (flat_map Y cur ++ fst (drain (fuel - List.length cur) ft dir w (rest ++ flat_map C cur)),
+     snd (drain (fuel - List.length cur) ft dir w (rest ++ flat_map C cur))).
 Proof.
-  intros w fs cwd dir. induction cur as [|it cur IH]; intros fuel rest Hok Hlen.
-  - cbn [List.length flat_map next_gen List.app]. rewrite Nat.sub_0_r, app_nil_r.
-    destruct (drain fuel fs cwd dir w rest); reflexivity.
-  - inversion Hok as [|? ? [ys [qs Hit]] Hok']; subst. cbn [List.length] in *.
+  intros w ft dir Y C. induction cur as [|it cur IH]; intros fuel rest Hok Hlen.
+  - cbn [List.length flat_map List.app]. rewrite Nat.sub_0_r, app_nil_r.
+    destruct (drain fuel ft dir w rest); reflexivity.
+  - inversion Hok as [|? ? Hit Hok']; subst. cbn [List.length] in *.
     destruct fuel as [|f]; [lia|].
-    rewrite <- app_comm_cons. rewrite (drain_step_ok _ _ _ _ _ _ _ _ _ Hit).
+    rewrite <- app_comm_cons. rewrite (drain_step_ok _ _ _ _ _ _ _ _ Hit).
     rewrite <- app_assoc. rewrite IH by (auto; lia).
-    cbn [fst snd Nat.sub]. unfold next_gen. cbn [flat_map].
-    rewrite (item_yields_scan _ _ _ _ _ _ _ _ Hit), (item_children_scan _ _ _ _ _ _ _ _ Hit).
+    cbn [fst snd Nat.sub flat_map].
     rewrite <- !app_assoc. reflexivity.
 Qed.
 
 (* the whole drain: level order *)
-Lemma drain_bfs : forall w fs cwd dir n q fuel,
-  Forall (item_ok w fs cwd dir) (bfs n w fs cwd dir q) ->
-  gen_at n w fs cwd dir q = [] ->
-  List.length (bfs n w fs cwd dir q) <= fuel ->
-  drain fuel fs cwd dir w q = (flat_map (item_yields w fs cwd dir) (bfs n w fs cwd dir q), None).
+Lemma drain_bfs : forall w ft dir Y C n q fuel,
+  Forall (scans w ft dir Y C) (bfsG C n q) ->
+  gen_atG C n q = [] ->
+  List.length (bfsG C n q) <= fuel ->
+  drain fuel ft dir w q = (flat_map Y (bfsG C n q), None).
 Proof.
-  intros w fs cwd dir. induction n as [|n IH]; intros q fuel Hok Hg Hlen; cbn [bfs gen_at] in *.
+  intros w ft dir Y C. induction n as [|n IH]; intros q fuel Hok Hg Hlen; cbn [bfsG gen_atG] in *.
   - subst q. apply drain_nil.
   - apply Forall_app in Hok as [Hq Hr]. rewrite app_length in Hlen.
-    rewrite <- (app_nil_r q) at 1. rewrite drain_level by (auto; lia).
+    rewrite <- (app_nil_r q) at 1. rewrite (drain_level _ _ _ Y C) by (auto; lia).
     cbn [List.app]. rewrite (IH _ _ Hr Hg) by lia. cbn [fst snd]. rewrite flat_map_app. reflexivity.
 Qed.
 
-(* read_all = main file, then the drain *)
-Lemma read_all_ok : forall w fs cwd top fuel ls ys0 q0,
-  fs_text fs cwd top = Some ls ->
-  scan_file w 0 top (f_rest (read_front_matters ls)) = (ys0, q0, None) ->
-  ra_yields (read_all w fs cwd top fuel) = ys0 ++ fst (drain fuel fs cwd (dirname top) w q0) /\
-  ra_error (read_all w fs cwd top fuel) = snd (drain fuel fs cwd (dirname top) w q0).
+(* the text-level instance: Y, C read off the files themselves *)
+Lemma item_ok_scans : forall w ft dir it,
+  item_ok w ft dir it -> scans w ft dir (item_yields w ft dir) (item_children w ft dir) it.
 Proof.
-  intros * H H0. unfold read_all. rewrite H. cbv beta iota zeta. rewrite H0.
-  destruct (drain fuel fs cwd (dirname top) w q0). split; reflexivity.
+  intros w ft dir it [ys [qs H]]. unfold scans.
+  now rewrite (item_yields_scan _ _ _ _ _ _ _ H), (item_children_scan _ _ _ _ _ _ _ H).
 Qed.
 
-Lemma readq_order : forall w fs cwd top fuel ls ys0 q0 n,
-  fs_text fs cwd top = Some ls ->
+(* read_all = main file, then the drain *)
+Lemma read_all_ok : forall w ft top fuel ls ys0 q0,
+  ft top = Some ls ->
   scan_file w 0 top (f_rest (read_front_matters ls)) = (ys0, q0, None) ->
-  Forall (item_ok w fs cwd (dirname top)) (bfs n w fs cwd (dirname top) q0) ->
-  gen_at n w fs cwd (dirname top) q0 = [] ->
-  List.length (bfs n w fs cwd (dirname top) q0) <= fuel ->
-  ra_yields (read_all w fs cwd top fuel)
-    = ys0 ++ flat_map (item_yields w fs cwd (dirname top)) (bfs n w fs cwd (dirname top) q0)
-  /\ ra_error (read_all w fs cwd top fuel) = None.
+  ra_yields (read_all_ft w ft top fuel) = ys0 ++ fst (drain fuel ft (dirname top) w q0) /\
+  ra_error (read_all_ft w ft top fuel) = snd (drain fuel ft (dirname top) w q0) /\
+  ra_message (read_all_ft w ft top fuel) = f_message (read_front_matters ls) /\
+  ra_title (read_all_ft w ft top fuel) = f_title (read_front_matters ls).
+Proof.
+  intros * H H0. unfold read_all_ft. rewrite H. cbv beta iota zeta. rewrite H0.
+  destruct (drain fuel ft (dirname top) w q0). repeat split; reflexivity.
+Qed.
+
+Lemma readq_order_gen : forall w ft top fuel ls ys0 q0 Y C n,
+  ft top = Some ls ->
+  scan_file w 0 top (f_rest (read_front_matters ls)) = (ys0, q0, None) ->
+  Forall (scans w ft (dirname top) Y C) (bfsG C n q0) ->
+  gen_atG C n q0 = [] ->
+  List.length (bfsG C n q0) <= fuel ->
+  ra_yields (read_all_ft w ft top fuel) = ys0 ++ flat_map Y (bfsG C n q0)
+  /\ ra_error (read_all_ft w ft top fuel) = None.
 Proof.
   intros * H H0 Hok Hg Hlen.
-  destruct (read_all_ok w fs cwd top fuel ls ys0 q0 H H0) as [Hy He].
-  rewrite Hy, He, (drain_bfs _ _ _ _ _ _ _ Hok Hg Hlen). split; reflexivity.
+  destruct (read_all_ok w ft top fuel ls ys0 q0 H H0) as [Hy [He _]].
+  rewrite Hy, He, (drain_bfs _ _ _ _ _ _ _ _ Hok Hg Hlen). split; reflexivity.
+Qed.
+
+Lemma readq_order : forall w ft top fuel ls ys0 q0 n,
+  ft top = Some ls ->
+  scan_file w 0 top (f_rest (read_front_matters ls)) = (ys0, q0, None) ->
+  Forall (item_ok w ft (dirname top)) (bfs n w ft (dirname top) q0) ->
+  gen_at n w ft (dirname top) q0 = [] ->
+  List.length (bfs n w ft (dirname top) q0) <= fuel ->
+  ra_yields (read_all_ft w ft top fuel)
+    = ys0 ++ flat_map (item_yields w ft (dirname top)) (bfs n w ft (dirname top) q0)
+  /\ ra_error (read_all_ft w ft top fuel) = None.
+Proof.
+  intros * H H0 Hok Hg Hlen. unfold bfs, gen_at in *.
+  eapply readq_order_gen; eauto.
+  eapply Forall_impl; [|exact Hok]. intros it. apply item_ok_scans.
 Qed.
 
 (* ------------------------------------------------------------------ *)
@@ -124,40 +149,901 @@ Proof.
   now rewrite inputs_of_app, IH.
 Qed.
 
-Lemma readq_once : forall w fs cwd top fuel ls ys0 q0 n,
-  fs_text fs cwd top = Some ls ->
+Lemma readq_once : forall w ft top fuel ls ys0 q0 n,
+  ft top = Some ls ->
   scan_file w 0 top (f_rest (read_front_matters ls)) = (ys0, q0, None) ->
-  Forall (item_ok w fs cwd (dirname top)) (bfs n w fs cwd (dirname top) q0) ->
-  gen_at n w fs cwd (dirname top) q0 = [] ->
-  List.length (bfs n w fs cwd (dirname top) q0) <= fuel ->
-  inputs_of (ra_yields (read_all w fs cwd top fuel))
+  Forall (item_ok w ft (dirname top)) (bfs n w ft (dirname top) q0) ->
+  gen_at n w ft (dirname top) q0 = [] ->
+  List.length (bfs n w ft (dirname top) q0) <= fuel ->
+  inputs_of (ra_yields (read_all_ft w ft top fuel))
     = inputs_of ys0 ++
-      flat_map (fun it => inputs_of (item_yields w fs cwd (dirname top) it)) (bfs n w fs cwd (dirname top) q0).
+      flat_map (fun it => inputs_of (item_yields w ft (dirname top) it)) (bfs n w ft (dirname top) q0).
 Proof.
   intros * H H0 Hok Hg Hlen.
-  destruct (readq_order _ _ _ _ _ _ _ _ _ H H0 Hok Hg Hlen) as [Hy _].
+  destruct (readq_order _ _ _ _ _ _ _ _ H H0 Hok Hg Hlen) as [Hy _].
   now rewrite Hy, inputs_of_app, inputs_of_flat_map.
 Qed.
 
 (* ------------------------------------------------------------------ *)
+(* a missing target: everything before it in breadth-first order is read, then FileNotFoundError *)
+
+Lemma drain_level_missing : forall w ft dir Y C a it b fuel rest,
+  Forall (scans w ft dir Y C) a -> item_missing ft dir it -> List.length a < fuel ->
+  drain fuel ft dir w ((a ++ it :: b) ++ rest) = (flat_map Y a, Some E_FileNotFound).
+Proof.
+  intros w ft dir Y C. induction a as [|x a IH]; intros it b fuel rest Hok Hm Hlen.
+  - cbn [List.app flat_map]. destruct fuel as [|f]; [cbn in Hlen; lia|].
+    now rewrite drain_step_missing.
+  - inversion Hok as [|? ? Hx Hok']; subst. cbn [List.length] in Hlen.
+    destruct fuel as [|f]; [lia|].
+    rewrite <- !app_comm_cons. rewrite (drain_step_ok _ _ _ _ _ _ _ _ Hx).
+    rewrite <- app_assoc. rewrite IH by (auto; lia).
+    cbn [fst snd flat_map]. reflexivity.
+Qed.
+
+Lemma drain_bfs_missing : forall w ft dir Y C n q fuel pre it post,
+  bfsG C n q = pre ++ it :: post ->
+  Forall (scans w ft dir Y C) pre -> item_missing ft dir it ->
+  List.length pre < fuel ->
+  drain fuel ft dir w q = (flat_map Y pre, Some E_FileNotFound).
+Proof.
+  intros w ft dir Y C. induction n as [|n IH]; intros q fuel pre it post Hb Hok Hm Hlen; cbn [bfsG] in Hb.
+  - destruct pre; discriminate.
+  - apply app_eq_app in Hb as [l [[Hq Hrest] | [Hpre Hrest]]].
+    + (* q = pre ++ l, l ++ rest-of-bfs = it :: post *)
+      destruct l as [|x l].
+      * (* the missing item is the first of the next generations *)
+        cbn [List.app] in Hrest. rewrite app_nil_r in Hq. subst q.
+        rewrite <- (app_nil_r pre) at 1. rewrite (drain_level _ _ _ Y C) by (auto; lia).
+        cbn [List.app].
+        rewrite (IH (flat_map C pre) (fuel - List.length pre) [] it post) by (auto; cbn; lia).
+        cbn [fst snd flat_map]. now rewrite app_nil_r.
+      * injection Hrest as Hx Hrest. subst x q.
+        rewrite <- (app_nil_r (pre ++ it :: l)). now apply (drain_level_missing _ _ _ Y C).
+    + (* pre = q ++ l *)
+      subst pre. apply Forall_app in Hok as [Hq Hl]. rewrite app_length in Hlen.
+      rewrite <- (app_nil_r q) at 1. rewrite (drain_level _ _ _ Y C) by (auto; lia).
+      cbn [List.app].
+      rewrite (IH (flat_map C q) (fuel - List.length q) l it post) by (auto; lia).
+      cbn [fst snd]. now rewrite flat_map_app.
+Qed.
+
+Lemma readq_missing : forall w ft top fuel ls ys0 q0 n pre it post,
+  ft top = Some ls ->
+  scan_file w 0 top (f_rest (read_front_matters ls)) = (ys0, q0, None) ->
+  bfs n w ft (dirname top) q0 = pre ++ it :: post ->
+  Forall (item_ok w ft (dirname top)) pre -> item_missing ft (dirname top) it ->
+  List.length pre < fuel ->
+  ra_error (read_all_ft w ft top fuel) = Some E_FileNotFound /\
+  ra_yields (read_all_ft w ft top fuel) = ys0 ++ flat_map (item_yields w ft (dirname top)) pre.
+Proof.
+  intros * H H0 Hb Hok Hm Hlen.
+  destruct (read_all_ok w ft top fuel ls ys0 q0 H H0) as [Hy [He _]].
+  assert (Hd := drain_bfs_missing w ft (dirname top) (item_yields w ft (dirname top))
+                  (item_children w ft (dirname top)) n q0 fuel pre it post Hb).
+  rewrite Hy, He, Hd; auto.
+  eapply Forall_impl; [|exact Hok]. intros x. apply item_ok_scans.
+Qed.
+
+(* the top-level file itself *)
+Lemma readq_missing_top : forall w ft top fuel,
+  ft top = None -> ra_error (read_all_ft w ft top fuel) = Some E_FileNotFound.
+Proof. intros * H. unfold read_all_ft. now rewrite H. Qed.
+
+(* ------------------------------------------------------------------ *)
 (* a cycle of read cards exhausts every fuel *)
 
-Lemma readq_cycle_diverges : forall w fs cwd dir (good S : qitem -> Prop),
-  (forall it, good it -> item_ok w fs cwd dir it /\ Forall good (item_children w fs cwd dir it)) ->
-  (forall it, S it -> good it /\ Exists S (item_children w fs cwd dir it)) ->
-  forall fuel q, Forall good q -> Exists S q -> snd (drain fuel fs cwd dir w q) = Some E_OutOfFuel.
+Lemma readq_cycle_diverges : forall w ft dir (good S : qitem -> Prop),
+  (forall it, good it -> item_ok w ft dir it /\ Forall good (item_children w ft dir it)) ->
+  (forall it, S it -> good it /\ Exists S (item_children w ft dir it)) ->
+  forall fuel q, Forall good q -> Exists S q -> snd (drain fuel ft dir w q) = Some E_OutOfFuel.
 Proof.
-  intros w fs cwd dir good S Hgood HS. induction fuel as [|f IH]; intros q Hq Hex.
+  intros w ft dir good S Hgood HS. induction fuel as [|f IH]; intros q Hq Hex.
   - destruct q as [|it q]; [inversion Hex|]. now rewrite drain_out_of_fuel.
   - destruct q as [|it q]; [inversion Hex|].
     inversion Hq as [|? ? Hit Hq']; subst.
     destruct (Hgood _ Hit) as [[ys [qs Hscan]] Hch].
-    rewrite (item_children_scan _ _ _ _ _ _ _ _ Hscan) in Hch.
-    rewrite (drain_step_ok _ _ _ _ _ _ _ _ _ Hscan). cbn [snd].
+    rewrite (item_children_scan _ _ _ _ _ _ _ Hscan) in Hch.
+    rewrite (drain_step_ok _ _ _ _ _ _ _ _ Hscan). cbn [snd].
     apply IH.
     + apply Forall_app. now split.
     + apply Exists_app. inversion Hex as [? ? HSit|? ? Hex']; subst.
       * right. destruct (HS _ HSit) as [_ Hc].
-        now rewrite (item_children_scan _ _ _ _ _ _ _ _ Hscan) in Hc.
+        now rewrite (item_children_scan _ _ _ _ _ _ _ Hscan) in Hc.
       * now left.
 Qed.
+
+Lemma readq_cycle : forall w ft top ls ys0 q0 (good S : qitem -> Prop),
+  ft top = Some ls ->
+  scan_file w 0 top (f_rest (read_front_matters ls)) = (ys0, q0, None) ->
+  (forall it, good it -> item_ok w ft (dirname top) it /\ Forall good (item_children w ft (dirname top) it)) ->
+  (forall it, S it -> good it /\ Exists S (item_children w ft (dirname top) it)) ->
+  Forall good q0 -> Exists S q0 ->
+  forall fuel, ra_error (read_all_ft w ft top fuel) = Some E_OutOfFuel.
+Proof.
+  intros * H H0 Hg HS Hq Hex fuel.
+  destruct (read_all_ok w ft top fuel ls ys0 q0 H H0) as [_ [He _]].
+  rewrite He. eapply readq_cycle_diverges; eauto.
+Qed.
+
+(* ------------------------------------------------------------------ *)
+(* the working directory: only paths of the form dirname(top)/name are opened *)
+
+Lemma drain_ext : forall ft ft' dir w,
+  (forall name, ft (path_join dir name) = ft' (path_join dir name)) ->
+  forall fuel q, drain fuel ft dir w q = drain fuel ft' dir w q.
+Proof.
+  intros ft ft' dir w Hext. induction fuel as [|f IH]; intros q.
+  - destruct q as [|[[bt name] par] q]; reflexivity.
+  - destruct q as [|[[bt name] par] q]; [reflexivity|].
+    cbn [drain]. rewrite <- Hext.
+    destruct (ft (path_join dir name)) as [ls|]; [|reflexivity].
+    destruct (scan_file w bt (path_join dir name) ls) as [[ys qs] [e|]]; [reflexivity|].
+    now rewrite IH.
+Qed.
+
+Lemma read_all_ext : forall ft ft' w top fuel,
+  ft top = ft' top ->
+  (forall name, ft (path_join (dirname top) name) = ft' (path_join (dirname top) name)) ->
+  read_all_ft w ft top fuel = read_all_ft w ft' top fuel.
+Proof.
+  intros * Ht Hext. unfold read_all_ft. rewrite <- Ht.
+  destruct (ft top) as [ls|]; [|reflexivity]. cbv zeta.
+  destruct (scan_file w 0 top (f_rest (read_front_matters ls))) as [[ys qs] [e|]]; [reflexivity|].
+  now rewrite (drain_ext ft ft' _ _ Hext).
+Qed.
+
+Lemma is_abs_cons : forall p, is_abs p = true -> exists r, p = String "/" r.
+Proof.
+  intros p H. unfold is_abs in H. destruct p as [|a r]; [discriminate|].
+  cbn [String.prefix] in H. destruct (ascii_dec "/"%char a) as [E|E]; [|discriminate]. subst a. now exists r.
+Qed.
+
+Lemma rfind_slash_some : forall s i j, exists k, rfind_slash s i (Some j) = Some k.
+Proof.
+  induction s as [|a r IH]; intros i j; cbn [rfind_slash]; [now exists j|].
+  destruct (Ascii.eqb a "/"); apply IH.
+Qed.
+
+Lemma dirname_abs : forall p, is_abs p = true -> is_abs (dirname p) = true.
+Proof.
+  intros p H. destruct (is_abs_cons p H) as [r ->].
+  unfold dirname. cbn [rfind_slash]. cbn [Ascii.eqb Bool.eqb]. 
+  destruct (rfind_slash_some r 1 0) as [k Hk]. 
+  change (if (Ascii.eqb "/" "/") then Some 0 else None) with (Some 0).
+  rewrite Hk. cbn [takeS].
+  assert (Habs : forall x, is_abs (String "/" x) = true).
+  { intros x. unfold is_abs. cbn [String.prefix]. destruct (ascii_dec "/" "/") as [_|N]; [|now elim N].
+    now destruct x. }
+  destruct (all_slash (String "/" (takeS k r))) eqn:E; [apply Habs|].
+  cbn [rstrip_slash]. rewrite E. apply Habs.
+Qed.
+
+Lemma path_join_abs : forall a b, is_abs a = true -> is_abs (path_join a b) = true.
+Proof.
+  intros a b H. unfold path_join. destruct (is_abs b) eqn:Eb; [exact Eb|].
+  destruct (is_abs_cons a H) as [r ->]. cbn [is_empty orb].
+  assert (Habs : forall x, is_abs (String "/" x) = true).
+  { intros x. unfold is_abs. cbn [String.prefix]. destruct (ascii_dec "/" "/") as [_|N]; [|now elim N].
+    now destruct x. }
+  destruct (ends_with "/" (String "/" r)); cbn [String.append]; apply Habs.
+Qed.
+
+Lemma fs_text_abs : forall fs cwd cwd' p, is_abs p = true -> fs_text fs cwd p = fs_text fs cwd' p.
+Proof. intros * H. unfold fs_text, fs_open, abs_path. now rewrite H. Qed.
+
+Lemma readq_cwd_free : forall w fs cwd cwd' top fuel,
+  is_abs top = true -> read_all w fs cwd top fuel = read_all w fs cwd' top fuel.
+Proof.
+  intros * H. unfold read_all. apply read_all_ext.
+  - now apply fs_text_abs.
+  - intros name. apply fs_text_abs. apply path_join_abs. now apply dirname_abs.
+Qed.
+
+(* ------------------------------------------------------------------ *)
+(* the line loop of Lines.v without its line numbers *)
+Definition flushc (bt : nat) (raw : list string) : list (nat * list string) :=
+  if nonempty raw then [(bt, raw)] else [].
+
+Fixpoint rdc (w : nat) (ls : list string) (bc bt : nat) (cont hnc : bool) (raw : list string)
+  : list (nat * list string) * option rd_err :=
+  match ls with
+  | [] => (flushc bt raw, None)
+  | l :: r =>
+      let line := expandtabs TABSIZE l in
+      let c := is_comment line in
+      if all_space line then
+        let bc' := S bc in
+        let bt' := if Nat.ltb bc' 3 then bc' else bt in
+        let (out, e) := rdc w r bc' bt' cont false [] in
+        (flushc bt raw ++ out, e)
+      else
+        let newinp := andb (negb (all_space (takeS BLANK_SPACE_CONTINUE line)))
+                     (andb (negb cont) (andb (negb c) (andb hnc (nonempty raw)))) in
+        let pre := if newinp then flushc bt raw else [] in
+        let raw1 := if newinp then [] else raw in
+        if andb (contains "#"%char (takeS BLANK_SPACE_CONTINUE line)) (negb c)
+        then (pre, Some UnsupportedFeature)
+        else
+          let line' := takeS w line in
+          let cont' := ends_with amp3 line' in
+          let (out, e) := rdc w r bc bt cont' (orb hnc (negb c)) (raw1 ++ [rstrip line']) in
+          (pre ++ out, e)
+  end.
+
+Lemma cards_flush : forall bt raw n, cards_of (flush bt raw n) = flushc bt raw.
+Proof. intros. unfold flush, flushc. destruct (nonempty raw); reflexivity. Qed.
+
+Lemma cards_of_app : forall a b, cards_of (a ++ b) = cards_of a ++ cards_of b.
+Proof. intros. unfold cards_of. apply map_app. Qed.
+
+Lemma rd_loop_rdc : forall w ls lineno bc bt cont hnc raw,
+  (cards_of (fst (rd_loop w ls lineno bc bt cont hnc raw)), snd (rd_loop w ls lineno bc bt cont hnc raw))
+  = rdc w ls bc bt cont hnc raw.
+Proof.
+  intros w. induction ls as [|l r IH]; intros lineno bc bt cont hnc raw.
+  - cbn [rd_loop rdc fst snd]. now rewrite cards_flush.
+  - cbn [rd_loop rdc]. cbv zeta.
+    destruct (all_space (expandtabs TABSIZE l)).
+    + specialize (IH (S lineno) (S bc) (if Nat.ltb (S bc) 3 then S bc else bt) cont false []).
+      destruct (rd_loop w r (S lineno) (S bc) (if Nat.ltb (S bc) 3 then S bc else bt) cont false []) as [o e].
+      destruct (rdc w r (S bc) (if Nat.ltb (S bc) 3 then S bc else bt) cont false []) as [o' e'].
+      cbn [fst snd] in *. injection IH as <- <-. now rewrite cards_of_app, cards_flush.
+    + set (newinp := andb (negb (all_space (takeS BLANK_SPACE_CONTINUE (expandtabs TABSIZE l))))
+                     (andb (negb cont) (andb (negb (is_comment (expandtabs TABSIZE l))) (andb hnc (nonempty raw))))).
+      destruct (andb (contains "#"%char (takeS BLANK_SPACE_CONTINUE (expandtabs TABSIZE l)))
+                     (negb (is_comment (expandtabs TABSIZE l)))).
+      * cbn [fst snd]. destruct newinp; [now rewrite cards_flush|reflexivity].
+      * match goal with |- context [rd_loop w r ?a ?b ?c ?d ?e ?f] =>
+          specialize (IH a b c d e f); destruct (rd_loop w r a b c d e f) as [o e0] end.
+        unfold amp3.
+        match goal with |- context [rdc w r ?b ?c ?d ?e ?f] => destruct (rdc w r b c d e f) as [o' e'] end.
+        cbn [fst snd] in *. injection IH as <- <-. rewrite cards_of_app.
+        destruct newinp; [now rewrite cards_flush|reflexivity].
+Qed.
+
+Definition prepend {E : Type} (p : list (nat * list string)) (x : list (nat * list string) * E)
+  : list (nat * list string) * E := (p ++ fst x, snd x).
+
+Lemma prepend_nil : forall (E : Type) (x : list (nat * list string) * E), prepend [] x = x.
+Proof. intros E [a b]. reflexivity. Qed.
+
+Lemma prepend_app : forall (E : Type) p q (x : list (nat * list string) * E),
+  prepend p (prepend q x) = prepend (p ++ q) x.
+Proof. intros E p q [a b]. unfold prepend. cbn [fst snd]. now rewrite app_assoc. Qed.
+
+Ltac fin_rdc :=
+  unfold cooked; cbn [map List.app];
+  match goal with |- context [rdc ?w ?R ?a ?b ?c ?d ?e] => destruct (rdc w R a b c d e) end; reflexivity.
+
+(* the continuation lines of a card are appended to it *)
+Lemma cont_run : forall w ls R bc bt cont raw,
+  cont_lines w cont ls = true -> raw <> [] ->
+  rdc w (ls ++ R) bc bt cont true raw = rdc w R bc bt false true (raw ++ cooked w ls).
+Proof.
+  intros w. induction ls as [|l r IH]; intros R bc bt cont raw H Hraw.
+  - cbn [cont_lines] in H. apply negb_true_iff in H. subst cont.
+    cbn [List.app cooked map]. now rewrite app_nil_r.
+  - cbn [cont_lines] in H.
+    apply andb_true_iff in H as [H1 H]. apply andb_true_iff in H as [H2 H]. apply andb_true_iff in H as [H3 H4].
+    apply negb_true_iff in H1. apply negb_true_iff in H3.
+    cbn [List.app rdc]. cbv zeta. rewrite H1, H3.
+    assert (Hn : andb (negb (all_space (takeS BLANK_SPACE_CONTINUE (expandtabs TABSIZE l))))
+                   (andb (negb cont) (andb (negb (is_comment (expandtabs TABSIZE l))) (andb true (nonempty raw)))) = false).
+    { destruct (all_space (takeS BLANK_SPACE_CONTINUE (expandtabs TABSIZE l))); [reflexivity|].
+      destruct cont; [reflexivity|]. destruct (is_comment (expandtabs TABSIZE l)); [reflexivity|discriminate]. }
+    rewrite Hn. cbn [orb].
+    change (ends_with amp3 (takeS w (expandtabs TABSIZE l))) with (amp_end w l).
+    rewrite IH; auto.
+    + cbn [cooked map]. rewrite <- app_assoc. cbn [List.app].
+      change (rstrip (takeS w (expandtabs TABSIZE l))) with (cook w l).
+      fin_rdc.
+    + destruct raw; discriminate.
+Qed.
+
+(* a card (with comment lines in front) met while nothing but comment lines are pending: no flush *)
+Lemma lead_step : forall w c R bc bt cont raw,
+  lcard_ok w c = true ->
+  rdc w (c ++ R) bc bt cont false raw = rdc w R bc bt false true (raw ++ cooked w c).
+Proof.
+  intros w. induction c as [|l r IH]; intros R bc bt cont raw H; [discriminate|].
+  cbn [lcard_ok] in H. destruct (comment_line l) eqn:Ec.
+  - unfold comment_line in Ec. apply andb_true_iff in Ec as [E1 E2]. apply negb_true_iff in E1.
+    cbn [List.app rdc]. cbv zeta. rewrite E1, E2. cbn [negb andb orb].
+    rewrite !andb_false_r. cbn [negb andb orb].
+    rewrite IH by exact H. cbn [cooked map]. rewrite <- app_assoc. cbn [List.app].
+    change (rstrip (takeS w (expandtabs TABSIZE l))) with (cook w l).
+    fin_rdc.
+  - cbn [card_ok] in H. apply andb_true_iff in H as [Hs Hc]. unfold start_line in Hs.
+    apply andb_true_iff in Hs as [S1 Hs]. apply andb_true_iff in Hs as [S2 Hs]. apply andb_true_iff in Hs as [S3 S4].
+    apply negb_true_iff in S1. apply negb_true_iff in S2. apply negb_true_iff in S4.
+    cbn [List.app rdc]. cbv zeta. rewrite S1, S2, S4. cbn [negb andb orb].
+    rewrite !andb_false_r. cbn [negb andb orb].
+    change (ends_with amp3 (takeS w (expandtabs TABSIZE l))) with (amp_end w l).
+    rewrite cont_run; auto.
+    + cbn [cooked map]. rewrite <- app_assoc. cbn [List.app].
+      change (rstrip (takeS w (expandtabs TABSIZE l))) with (cook w l).
+      fin_rdc.
+    + destruct raw; discriminate.
+Qed.
+
+(* a card met behind another card: that one is flushed *)
+Lemma card_step : forall w c R bc bt raw,
+  card_ok w c = true -> raw <> [] ->
+  rdc w (c ++ R) bc bt false true raw = prepend [(bt, raw)] (rdc w R bc bt false true (cooked w c)).
+Proof.
+  intros w c R bc bt raw H Hraw. destruct c as [|l r]; [discriminate|].
+  cbn [card_ok] in H. apply andb_true_iff in H as [Hs Hc]. unfold start_line in Hs.
+  apply andb_true_iff in Hs as [S1 Hs]. apply andb_true_iff in Hs as [S2 Hs]. apply andb_true_iff in Hs as [S3 S4].
+  apply negb_true_iff in S1. apply negb_true_iff in S2. apply negb_true_iff in S4.
+  cbn [List.app rdc]. cbv zeta. rewrite S1, S2, S4. rewrite S3.
+  assert (Hne : nonempty raw = true) by (destruct raw; [contradiction|reflexivity]).
+  rewrite Hne. cbn [negb andb orb]. unfold flushc. rewrite Hne.
+  change (ends_with amp3 (takeS w (expandtabs TABSIZE l))) with (amp_end w l).
+  cbn [List.app].
+  rewrite cont_run; auto; [|discriminate].
+  cbn [cooked map List.app].
+  change (rstrip (takeS w (expandtabs TABSIZE l))) with (cook w l).
+  fin_rdc.
+Qed.
+
+(* what stands behind a block: the end of the file, or a blank line and the next blocks *)
+Definition boundary (R : list string) : bool :=
+  match R with [] => true | sep :: _ => blank_line sep end.
+
+Definition after (w : nat) (R : list string) (bc bt : nat) : list (nat * list string) * option rd_err :=
+  match R with
+  | [] => ([], None)
+  | _ :: R' => rdc w R' (S bc) (next_bt bc bt) false false []
+  end.
+
+Lemma at_boundary : forall w R bc bt hnc raw,
+  boundary R = true ->
+  rdc w R bc bt false hnc raw = prepend (flushc bt raw) (after w R bc bt).
+Proof.
+  intros w R bc bt hnc raw H. destruct R as [|sep R'].
+  - cbn [rdc after]. unfold prepend. cbn [fst snd]. now rewrite app_nil_r.
+  - cbn [boundary] in H. unfold blank_line in H. cbn [rdc after]. cbv zeta. rewrite H.
+    unfold next_bt. destruct (rdc w R' (S bc) (if Nat.ltb (S bc) 3 then S bc else bt) false false []); reflexivity.
+Qed.
+
+Definition typed (w bt : nat) (cs : list card) : list (nat * list string) :=
+  map (fun c => (bt, cooked w c)) cs.
+
+Lemma card_ok_nonempty : forall w c, card_ok w c = true -> cooked w c <> [].
+Proof. intros w [|l r] H; [discriminate|]. cbn. discriminate. Qed.
+
+Lemma block_run : forall w cs R bc bt raw,
+  forallb (card_ok w) cs = true -> boundary R = true -> raw <> [] ->
+  rdc w (List.concat cs ++ R) bc bt false true raw
+    = prepend ((bt, raw) :: typed w bt cs) (after w R bc bt).
+Proof.
+  intros w. induction cs as [|c cs IH]; intros R bc bt raw H HR Hraw.
+  - cbn [List.concat List.app typed map]. rewrite at_boundary by exact HR.
+    unfold flushc. destruct raw; [contradiction|reflexivity].
+  - cbn [forallb] in H. apply andb_true_iff in H as [Hc Hcs].
+    cbn [List.concat]. rewrite <- app_assoc. rewrite card_step by auto.
+    rewrite IH; auto using card_ok_nonempty.
+Qed.
+
+Lemma block_first : forall w b R bc bt,
+  block_ok w b = true -> boundary R = true ->
+  rdc w (List.concat b ++ R) bc bt false false [] = prepend (typed w bt b) (after w R bc bt).
+Proof.
+  intros w b R bc bt H HR. destruct b as [|c cs].
+  - cbn [List.concat List.app typed map]. rewrite at_boundary by exact HR. reflexivity.
+  - cbn [block_ok] in H. apply andb_true_iff in H as [Hc Hcs].
+    cbn [List.concat]. rewrite <- app_assoc. rewrite lead_step by exact Hc. cbn [List.app].
+    rewrite block_run; auto.
+    destruct c as [|l r]; [discriminate|]. cbn. discriminate.
+Qed.
+
+Definition render_more (more : list (string * list card)) : list string :=
+  flat_map (fun sb => fst sb :: List.concat (snd sb)) more.
+
+Lemma boundary_more : forall w more,
+  forallb (fun sb => andb (blank_line (fst sb)) (block_ok w (snd sb))) more = true ->
+  boundary (render_more more) = true.
+Proof.
+  intros w [|sb r] H; [reflexivity|]. cbn [forallb] in H. apply andb_true_iff in H as [H _].
+  apply andb_true_iff in H as [H _]. exact H.
+Qed.
+
+Lemma more_run : forall w more bc bt,
+  forallb (fun sb => andb (blank_line (fst sb)) (block_ok w (snd sb))) more = true ->
+  after w (render_more more) bc bt = (map (cook_t w) (more_tcards bc bt more), None).
+Proof.
+  intros w. induction more as [|sb r IH]; intros bc bt H; [reflexivity|].
+  assert (Hb := H). cbn [forallb] in H. apply andb_true_iff in H as [H Hr]. apply andb_true_iff in H as [H1 H2].
+  cbn [render_more flat_map List.app after more_tcards].
+  change (flat_map (fun sb0 : string * list card => fst sb0 :: List.concat (snd sb0)) r) with (render_more r).
+  rewrite block_first by (auto; eapply boundary_more; eauto).
+  rewrite IH by exact Hr. unfold prepend, typed. cbn [fst snd].
+  rewrite map_app, map_map. reflexivity.
+Qed.
+
+Lemma render_run : forall w sf bt,
+  block_ok w (s_first sf) = true ->
+  forallb (fun sb => andb (blank_line (fst sb)) (block_ok w (snd sb))) (s_more sf) = true ->
+  rdc w (render sf) 0 bt false false [] = (map (cook_t w) (sfile_tcards bt sf), None).
+Proof.
+  intros w sf bt H1 H2. unfold render.
+  change (flat_map (fun sb : string * list card => fst sb :: List.concat (snd sb)) (s_more sf)) with (render_more (s_more sf)).
+  rewrite block_first by (auto; eapply boundary_more; eauto).
+  rewrite more_run by exact H2. unfold prepend, typed, sfile_tcards. cbn [fst snd].
+  rewrite map_app, map_map. reflexivity.
+Qed.
+
+Lemma read_data_render : forall w sf bt,
+  block_ok w (s_first sf) = true ->
+  forallb (fun sb => andb (blank_line (fst sb)) (block_ok w (snd sb))) (s_more sf) = true ->
+  cards_of (fst (read_data_from w bt (render sf))) = map (cook_t w) (sfile_tcards bt sf) /\
+  snd (read_data_from w bt (render sf)) = None.
+Proof.
+  intros w sf bt H1 H2. unfold read_data_from.
+  assert (E := rd_loop_rdc w (render sf) 0 0 bt false false []).
+  rewrite render_run in E by assumption. now injection E.
+Qed.
+
+(* ------------------------------------------------------------------ *)
+(* flush_input's read-card test only looks at the lines and the block type of an input *)
+Definition q_of (path : string) (cs : list (nat * list string)) : list qitem :=
+  flat_map (fun c => match classify_lines (snd c) with RcName n => [(fst c, n, path)] | _ => [] end) cs.
+
+Definition nr (cs : list (nat * list string)) : list (nat * list string) :=
+  filter (fun c => negb (is_name (classify_lines (snd c)))) cs.
+
+Definition no_rcerr (cs : list (nat * list string)) : Prop :=
+  Forall (fun c => is_rcerr (classify_lines (snd c)) = false) cs.
+
+Lemma cut_at_err_none : forall ins, no_rcerr (cards_of ins) -> cut_at_err ins = (ins, false).
+Proof.
+  induction ins as [|i r IH]; intros H; [reflexivity|].
+  inversion H as [|? ? Hi Hr]; subst. cbn [cut_at_err]. unfold classify. cbn [snd] in Hi.
+  rewrite (IH Hr). destruct (classify_lines (i_lines i)); try reflexivity. discriminate.
+Qed.
+
+Lemma queue_of_cards : forall path ins, queue_of path ins = q_of path (cards_of ins).
+Proof.
+  intros path. induction ins as [|i r IH]; [reflexivity|].
+  unfold queue_of, q_of in *. cbn [cards_of map flat_map fst snd]. now rewrite IH.
+Qed.
+
+Lemma ycards_yields : forall path ins, ycards (map (yield_of path) ins) = nr (cards_of ins).
+Proof.
+  intros path. induction ins as [|i r IH]; [reflexivity|].
+  unfold ycards, nr in *. cbn [map cards_of]. unfold yield_of at 1, classify. cbn [filter snd].
+  destruct (classify_lines (i_lines i)); cbn [inputs_of flat_map is_name negb List.app map fst snd];
+    fold (inputs_of (map (yield_of path) r)); now rewrite IH.
+Qed.
+
+Lemma inputs_yields : forall path ins,
+  inputs_of (map (yield_of path) ins) = map (pair path) (filter (fun i => negb (is_name (classify i))) ins).
+Proof.
+  intros path. induction ins as [|i r IH]; [reflexivity|].
+  cbn [map filter]. unfold yield_of at 1.
+  destruct (classify i); cbn [inputs_of flat_map is_name negb List.app map];
+    fold (inputs_of (map (yield_of path) r)); now rewrite IH.
+Qed.
+
+Lemma q_of_cook : forall w path tcs, q_of path (map (cook_t w) tcs) = reads_of w path tcs.
+Proof.
+  intros w path. induction tcs as [|tc r IH]; [reflexivity|].
+  unfold q_of, reads_of in *. cbn [map flat_map]. rewrite IH. reflexivity.
+Qed.
+
+Lemma nr_cook : forall w tcs, nr (map (cook_t w) tcs) = map (cook_t w) (nonread w tcs).
+Proof.
+  intros w. induction tcs as [|tc r IH]; [reflexivity|].
+  unfold nr, nonread in *. cbn [map filter]. unfold cook_t at 1, card_rc at 1. cbn [snd].
+  destruct (negb (is_name (classify_lines (cooked w (snd tc))))); cbn [map]; now rewrite IH.
+Qed.
+
+Lemma no_rcerr_cook : forall w tcs,
+  forallb (fun c => negb (is_rcerr (card_rc w c))) (map snd tcs) = true -> no_rcerr (map (cook_t w) tcs).
+Proof.
+  intros w. induction tcs as [|tc r IH]; intros H; [constructor|].
+  cbn [map forallb] in H. apply andb_true_iff in H as [H1 H2]. constructor; [|now apply IH].
+  cbn [cook_t snd]. now apply negb_true_iff in H1.
+Qed.
+
+Lemma more_tcards_snd : forall more bc bt, map snd (more_tcards bc bt more) = flat_map snd more.
+Proof.
+  induction more as [|sb r IH]; intros bc bt; [reflexivity|].
+  cbn [more_tcards flat_map]. rewrite map_app, IH, map_map. cbn [snd]. now rewrite map_id.
+Qed.
+
+Lemma sfile_tcards_snd : forall bt sf, map snd (sfile_tcards bt sf) = all_cards sf.
+Proof.
+  intros. unfold sfile_tcards, all_cards. rewrite map_app, more_tcards_snd, map_map. cbn [snd]. now rewrite map_id.
+Qed.
+
+(* one file given by its cards: what the reader makes of its rendering *)
+Lemma scan_render : forall w sf bt path,
+  sfile_ok w sf = true ->
+  exists ys, scan_file w bt path (render sf) = (ys, reads_of w path (sfile_tcards bt sf), None) /\
+             ycards ys = map (cook_t w) (nonread w (sfile_tcards bt sf)).
+Proof.
+  intros w sf bt path H. unfold sfile_ok in H.
+  apply andb_true_iff in H as [H1 H]. apply andb_true_iff in H as [H2 H3].
+  destruct (read_data_render w sf bt H1 H2) as [Hc He].
+  unfold scan_file. destruct (read_data_from w bt (render sf)) as [ins e]. cbn [fst snd] in Hc, He. subst e.
+  rewrite cut_at_err_none.
+  - rewrite queue_of_cards, Hc, q_of_cook.
+    eexists. split; [reflexivity|]. rewrite ycards_yields, Hc. apply nr_cook.
+  - rewrite Hc. apply no_rcerr_cook. now rewrite sfile_tcards_snd.
+Qed.
+
+(* ------------------------------------------------------------------ *)
+(* list helpers *)
+Lemma filter_flat_map : forall (A B : Type) (f : B -> bool) (g : A -> list B) (l : list A),
+  filter f (flat_map g l) = flat_map (fun x => filter f (g x)) l.
+Proof. intros A B f g. induction l as [|x l IH]; [reflexivity|]. cbn [flat_map]. now rewrite filter_app, IH. Qed.
+
+Lemma map_flat_map : forall (A B C : Type) (f : B -> C) (g : A -> list B) (l : list A),
+  map f (flat_map g l) = flat_map (fun x => map f (g x)) l.
+Proof. intros A B C f g. induction l as [|x l IH]; [reflexivity|]. cbn [flat_map]. now rewrite map_app, IH. Qed.
+
+Lemma flat_map_ext_Forall : forall (A B : Type) (f g : A -> list B) (P : A -> Prop) (l : list A),
+  Forall P l -> (forall x, P x -> f x = g x) -> flat_map f l = flat_map g l.
+Proof.
+  intros A B f g P l H Hfg. induction H as [|x l Hx Hl IH]; [reflexivity|].
+  cbn [flat_map]. now rewrite IH, (Hfg x Hx).
+Qed.
+
+Lemma filter_comm : forall (A : Type) (f g : A -> bool) (l : list A),
+  filter f (filter g l) = filter g (filter f l).
+Proof.
+  intros A f g. induction l as [|x l IH]; [reflexivity|]. cbn [filter].
+  destruct (g x) eqn:Eg, (f x) eqn:Ef; cbn [filter]; rewrite ?Eg, ?Ef, IH; reflexivity.
+Qed.
+
+Lemma filter_all : forall (A : Type) (f : A -> bool) (l : list A),
+  Forall (fun x => f x = true) l -> filter f l = l.
+Proof. intros A f l H. induction H as [|x l Hx Hl IH]; [reflexivity|]. cbn [filter]. now rewrite Hx, IH. Qed.
+
+Lemma Forall_filter : forall (A : Type) (P : A -> Prop) (f : A -> bool) (l : list A),
+  Forall P l -> Forall P (filter f l).
+Proof.
+  intros A P f l H. induction H as [|x l Hx Hl IH]; [constructor|]. cbn [filter].
+  destruct (f x); [constructor|]; assumption.
+Qed.
+
+Lemma Forall_filter_self : forall (A : Type) (f : A -> bool) (l : list A),
+  Forall (fun x => f x = true) (filter f l).
+Proof.
+  intros A f. induction l as [|x l IH]; [constructor|]. cbn [filter].
+  destruct (f x) eqn:E; [constructor|]; assumption.
+Qed.
+
+Lemma Forall_flat_map_intro : forall (A B : Type) (P : B -> Prop) (g : A -> list B) (l : list A),
+  Forall (fun x => Forall P (g x)) l -> Forall P (flat_map g l).
+Proof.
+  intros A B P g l H. induction H as [|x l Hx Hl IH]; [constructor|].
+  cbn [flat_map]. apply Forall_app. now split.
+Qed.
+
+Lemma Forall_map_intro : forall (A B : Type) (P : B -> Prop) (f : A -> B) (l : list A),
+  Forall (fun x => P (f x)) l -> Forall P (map f l).
+Proof. intros A B P f l H. induction H; constructor; assumption. Qed.
+
+Lemma block_of_app : forall (A : Type) b (x y : list (nat * A)), block_of b (x ++ y) = block_of b x ++ block_of b y.
+Proof. intros. unfold block_of. apply filter_app. Qed.
+
+Lemma block_of_same : forall (A : Type) b (l : list A), block_of b (map (pair b) l) = map (pair b) l.
+Proof.
+  intros A b. induction l as [|x l IH]; [reflexivity|]. unfold block_of in *. cbn [map filter fst].
+  now rewrite Nat.eqb_refl, IH.
+Qed.
+
+Lemma block_of_other : forall (A : Type) b b' (l : list A), b' <> b -> block_of b (map (pair b') l) = [].
+Proof.
+  intros A b b' l H. induction l as [|x l IH]; [reflexivity|]. unfold block_of in *. cbn [map filter fst].
+  apply Nat.eqb_neq in H. now rewrite H, IH.
+Qed.
+
+Lemma pair_snd_block : forall (A : Type) b (l : list (nat * A)), map (pair b) (map snd (block_of b l)) = block_of b l.
+Proof.
+  intros A b. induction l as [|[k x] l IH]; [reflexivity|]. unfold block_of in *. cbn [filter fst].
+  destruct (Nat.eqb_spec k b) as [->|]; [cbn [map snd]; now rewrite IH|exact IH].
+Qed.
+
+Lemma block_of_map_fst : forall (A B : Type) (f : nat * A -> nat * B) b (l : list (nat * A)),
+  (forall x, fst (f x) = fst x) -> block_of b (map f l) = map f (block_of b l).
+Proof.
+  intros A B f b l Hf. induction l as [|x l IH]; [reflexivity|]. unfold block_of in *. cbn [map filter].
+  rewrite Hf. destruct (Nat.eqb (fst x) b); cbn [map]; now rewrite IH.
+Qed.
+
+Lemma by_blocks_map_fst : forall (A B : Type) (f : nat * A -> nat * B) (l : list (nat * A)),
+  (forall x, fst (f x) = fst x) -> by_blocks (map f l) = map f (by_blocks l).
+Proof. intros. unfold by_blocks. now rewrite !block_of_map_fst, !map_app by assumption. Qed.
+
+Lemma forallb_impl : forall (A : Type) (f g : A -> bool) (l : list A),
+  (forall x, f x = true -> g x = true) -> forallb f l = true -> forallb g l = true.
+Proof.
+  intros A f g l H. induction l as [|x l IH]; [reflexivity|]. cbn [forallb]. intros E.
+  apply andb_true_iff in E as [E1 E2]. now rewrite (H _ E1), IH.
+Qed.
+
+(* ------------------------------------------------------------------ *)
+(* well-formedness of cards and blocks *)
+Lemma card_ok_lcard : forall w c, card_ok w c = true -> lcard_ok w c = true.
+Proof.
+  intros w [|l r] H; [discriminate|]. cbn [lcard_ok].
+  assert (E : comment_line l = false).
+  { cbn [card_ok] in H. apply andb_true_iff in H as [Hs _]. unfold start_line in Hs.
+    apply andb_true_iff in Hs as [_ Hs]. apply andb_true_iff in Hs as [S2 _]. apply negb_true_iff in S2.
+    unfold comment_line. rewrite S2. apply andb_false_r. }
+  now rewrite E.
+Qed.
+
+Lemma cards_block_ok : forall w b, forallb (card_ok w) b = true -> block_ok w b = true.
+Proof.
+  intros w [|c r] H; [reflexivity|]. cbn [forallb] in H. apply andb_true_iff in H as [H1 H2].
+  cbn [block_ok]. now rewrite (card_ok_lcard _ _ H1), H2.
+Qed.
+
+Lemma block_ok_filter : forall w f b, block_ok w b = true -> block_ok w (filter f b) = true.
+Proof.
+  intros w f [|c r] H; [reflexivity|]. cbn [block_ok] in H. apply andb_true_iff in H as [H1 H2].
+  assert (Hr : forallb (card_ok w) (filter f r) = true).
+  { apply forallb_forall. intros x Hx. apply filter_In in Hx as [Hx _].
+    rewrite forallb_forall in H2. now apply H2. }
+  cbn [filter]. destruct (f c); [|now apply cards_block_ok].
+  cbn [block_ok]. now rewrite H1, Hr.
+Qed.
+
+Lemma block_ok_app : forall w b c, block_ok w b = true -> forallb (card_ok w) c = true -> block_ok w (b ++ c) = true.
+Proof.
+  intros w [|x r] c H Hc; [now apply cards_block_ok|].
+  cbn [block_ok] in H. apply andb_true_iff in H as [H1 H2].
+  cbn [List.app block_ok]. rewrite H1, forallb_app, H2, Hc. reflexivity.
+Qed.
+
+Lemma all_nil_more : forall (f : string -> bool) more,
+  forallb (fun sb : string * list card => andb (f (fst sb)) (is_nil (snd sb))) more = true ->
+  flat_map snd more = [] /\ forall bc bt, more_tcards bc bt more = [].
+Proof.
+  intros f. induction more as [|[s b] r IH]; intros H; [split; reflexivity|].
+  cbn [forallb fst snd] in H. apply andb_true_iff in H as [H1 H2]. apply andb_true_iff in H1 as [_ H1].
+  destruct b; [|discriminate]. destruct (IH H2) as [E1 E2]. split.
+  - cbn [flat_map snd List.app]. exact E1.
+  - intros bc bt. cbn [more_tcards snd map List.app]. apply E2.
+Qed.
+
+Lemma sub_ok_facts : forall w sf bt,
+  sub_ok w sf = true ->
+  sfile_ok w sf = true /\ sfile_tcards bt sf = map (pair bt) (s_first sf) /\ forallb (card_ok w) (s_first sf) = true.
+Proof.
+  intros w sf bt H. unfold sub_ok in H.
+  apply andb_true_iff in H as [H1 H]. apply andb_true_iff in H as [H2 H3].
+  destruct (all_nil_more _ _ H2) as [E1 E2]. repeat split; [|unfold sfile_tcards; now rewrite E2, app_nil_r|exact H1].
+  unfold sfile_ok. rewrite (cards_block_ok _ _ H1). cbn [andb].
+  apply andb_true_iff. split.
+  - eapply forallb_impl; [|exact H2]. intros [s b] E. cbn [fst snd] in *.
+    apply andb_true_iff in E as [Ea Eb]. rewrite Ea. destruct b; [reflexivity|discriminate].
+  - unfold all_cards. now rewrite E1, app_nil_r.
+Qed.
+
+(* the top-level file: three blocks *)
+Lemma top_shape : forall w tsf,
+  top_ok w tsf = true ->
+  sfile_ok w tsf = true /\
+  exists B0 B1 B2, block_ok w B0 = true /\ block_ok w B1 = true /\ block_ok w B2 = true /\
+    sfile_tcards 0 tsf = map (pair 0) B0 ++ map (pair 1) B1 ++ map (pair 2) B2.
+Proof.
+  intros w [first more] H. unfold top_ok in H. apply andb_true_iff in H as [Hs Hn]. split; [exact Hs|].
+  unfold sfile_ok in Hs. cbn [s_first s_more] in *.
+  apply andb_true_iff in Hs as [H1 Hs]. apply andb_true_iff in Hs as [H2 _].
+  exists first.
+  destruct more as [|[s1 b1] more].
+  - exists [], []. repeat split; auto; try (unfold sfile_tcards; cbn; now rewrite ?app_nil_r).
+  - cbn [forallb fst snd] in H2. apply andb_true_iff in H2 as [Hb1 H2]. apply andb_true_iff in Hb1 as [_ Hb1].
+    exists b1. destruct more as [|[s2 b2] more].
+    + exists []. repeat split; auto; try (unfold sfile_tcards; cbn; now rewrite ?app_nil_r).
+    + cbn [forallb fst snd] in H2. apply andb_true_iff in H2 as [Hb2 H2]. apply andb_true_iff in Hb2 as [_ Hb2].
+      exists b2. split; [exact H1|]. split; [exact Hb1|]. split; [exact Hb2|]. cbn [skipn] in Hn.
+      assert (Hn' : forallb (fun sb : string * list card => andb ((fun _ => true) (fst sb)) (is_nil (snd sb))) more = true).
+      { eapply forallb_impl; [|exact Hn]. intros x E. now rewrite E. }
+      destruct (all_nil_more _ _ Hn') as [_ E].
+      unfold sfile_tcards. cbn [s_first s_more more_tcards snd]. rewrite E, app_nil_r. reflexivity.
+Qed.
+
+(* ------------------------------------------------------------------ *)
+(* the flattening theorem *)
+Definition front_ok (front : list string) : Prop :=
+  exists m ti, forall X, read_front_matters (front ++ X) = mkFront m ti X.
+
+Lemma ycards_app : forall a b, ycards (a ++ b) = ycards a ++ ycards b.
+Proof. intros. unfold ycards. now rewrite inputs_of_app, map_app. Qed.
+
+Lemma ycards_flat_map : forall (A : Type) (f : A -> list yielded) (l : list A),
+  ycards (flat_map f l) = flat_map (fun x => ycards (f x)) l.
+Proof. intros A f. induction l as [|x l IH]; [reflexivity|]. cbn [flat_map]. now rewrite ycards_app, IH. Qed.
+
+Lemma forallb_map_Forall : forall (A B : Type) (f : B -> bool) (g : A -> B) (l : list A),
+  forallb f (map g l) = true -> Forall (fun x => f (g x) = true) l.
+Proof.
+  intros A B f g. induction l as [|x l IH]; intros H; [constructor|].
+  cbn [map forallb] in H. apply andb_true_iff in H as [H1 H2]. constructor; auto.
+Qed.
+
+Lemma Forall_forallb_map : forall (A B : Type) (f : B -> bool) (g : A -> B) (l : list A),
+  Forall (fun x => f (g x) = true) l -> forallb f (map g l) = true.
+Proof. intros A B f g l H. induction H as [|x l Hx Hl IH]; [reflexivity|]. cbn [map forallb]. now rewrite Hx, IH. Qed.
+
+Lemma nonread_pair : forall w b (B : list card),
+  map snd (nonread w (map (pair b) B)) = filter (fun c => negb (is_name (card_rc w c))) B.
+Proof.
+  intros w b. induction B as [|c B IH]; [reflexivity|]. unfold nonread in *. cbn [map filter snd].
+  destruct (negb (is_name (card_rc w c))); cbn [map snd]; now rewrite IH.
+Qed.
+
+Section Flatten.
+  Variables (w : nat) (t : stree) (top : string) (front : list string) (tsf : sfile) (n : nat).
+  Let dir := dirname top.
+  Let ft := tree_ft top (front ++ render tsf) t.
+  Let own := sfile_tcards 0 tsf.
+  Let q0 := reads_of w top own.
+  Let C := s_children w t dir.
+  Let items := bfsG C n q0.
+  Let cards_it := s_item_cards t dir.
+  Let ALL := nonread w own ++ flat_map (fun it => nonread w (cards_it it)) items.
+
+  Hypothesis Hfront : front_ok front.
+  Hypothesis Htop : top_ok w tsf = true.
+  Hypothesis Hfresh : slookup t top = None.
+  Hypothesis Hitems : Forall (s_item_ok w t dir) items.
+
+  Lemma item_scans : forall it, s_item_ok w t dir it ->
+    exists ys, item_scan w ft dir it = Some (ys, C it, None) /\
+               ycards ys = map (cook_t w) (nonread w (cards_it it)).
+  Proof.
+    intros it [sf [Hl Hs]]. destruct (sub_ok_facts w sf (fst (fst it)) Hs) as [Hok _].
+    unfold item_scan, ft, tree_ft.
+    destruct (String.eqb_spec (item_path dir it) top) as [E|_].
+    - rewrite E in Hl. rewrite Hfresh in Hl. discriminate.
+    - rewrite Hl. cbn [option_map].
+      destruct (scan_render w sf (fst (fst it)) (item_path dir it) Hok) as [ys [H1 H2]].
+      exists ys. unfold C, s_children, cards_it, s_item_cards. rewrite Hl. now rewrite H1.
+  Qed.
+
+  Lemma tree_side : forall fuel,
+    gen_atG C n q0 = [] -> List.length items <= fuel ->
+    ra_error (read_all_ft w ft top fuel) = None /\
+    ycards (ra_yields (read_all_ft w ft top fuel)) = map (cook_t w) ALL /\
+    forall m ti, (forall X, read_front_matters (front ++ X) = mkFront m ti X) ->
+      ra_message (read_all_ft w ft top fuel) = m /\ ra_title (read_all_ft w ft top fuel) = ti.
+  Proof.
+    intros fuel Hg Hlen. destruct Hfront as [m [ti Hf]].
+    assert (Hft : ft top = Some (front ++ render tsf)) by (unfold ft, tree_ft; now rewrite String.eqb_refl).
+    destruct (top_shape w tsf Htop) as [Hok _].
+    destruct (scan_render w tsf 0 top Hok) as [ys0 [Hs0 Hy0]].
+    assert (Hscan : scan_file w 0 top (f_rest (read_front_matters (front ++ render tsf))) = (ys0, q0, None))
+      by (rewrite Hf; exact Hs0).
+    assert (HF : Forall (scans w ft dir (item_yields w ft dir) C) items).
+    { eapply Forall_impl; [|exact Hitems]. intros it Hit. destruct (item_scans it Hit) as [ys [H1 _]].
+      unfold scans. now rewrite (item_yields_scan _ _ _ _ _ _ _ H1). }
+    destruct (readq_order_gen w ft top fuel _ ys0 q0 (item_yields w ft dir) C n Hft Hscan HF Hg Hlen) as [Hy He].
+    split; [exact He|]. split.
+    - rewrite Hy, ycards_app, ycards_flat_map, Hy0. unfold ALL. rewrite map_app, map_flat_map. f_equal.
+      eapply flat_map_ext_Forall; [exact Hitems|]. intros it Hit. destruct (item_scans it Hit) as [ys [H1 H2]].
+      now rewrite (item_yields_scan _ _ _ _ _ _ _ H1).
+    - intros m' ti' Hf'. destruct (read_all_ok w ft top fuel _ ys0 q0 Hft Hscan) as [_ [_ [Hm Ht]]].
+      rewrite Hm, Ht, Hf'. split; reflexivity.
+  Qed.
+
+  Lemma flat_block_ALL : forall b, flat_block w t dir own items b = map snd (block_of b ALL).
+  Proof.
+    intros b. unfold flat_block, ALL. rewrite block_of_app, map_app. f_equal.
+    unfold block_of at 2. rewrite filter_flat_map, map_flat_map. reflexivity.
+  Qed.
+
+  Lemma flat_tcards : sfile_tcards 0 (flatten w t top tsf n) = by_blocks ALL.
+  Proof.
+    unfold flatten. fold dir own q0 C items. unfold sfile_tcards. cbn [s_first s_more more_tcards snd].
+    rewrite !flat_block_ALL.
+    change (next_bt 0 0) with 1. change (next_bt 1 1) with 2.
+    rewrite !pair_snd_block, app_nil_r. reflexivity.
+  Qed.
+
+  Lemma item_cards_shape : forall it, s_item_ok w t dir it ->
+    exists bt S, cards_it it = map (pair bt) S /\ forallb (card_ok w) S = true /\
+                 forallb (fun c => negb (is_rcerr (card_rc w c))) S = true.
+  Proof.
+    intros it [sf [Hl Hs]]. destruct (sub_ok_facts w sf (fst (fst it)) Hs) as [_ [E Hc]].
+    exists (fst (fst it)), (s_first sf). unfold cards_it, s_item_cards. rewrite Hl. repeat split; auto.
+    unfold sub_ok in Hs. apply andb_true_iff in Hs as [_ Hs]. now apply andb_true_iff in Hs as [_ Hs].
+  Qed.
+
+  Lemma sub_cards_ok : forall b it, s_item_ok w t dir it ->
+    forallb (card_ok w) (map snd (block_of b (nonread w (cards_it it)))) = true.
+  Proof.
+    intros b it Hit. destruct (item_cards_shape it Hit) as [bt [S [E [Hc _]]]]. rewrite E.
+    apply forallb_forall. intros c Hin. apply in_map_iff in Hin as [[k c'] [Ec Hin]]. cbn [snd] in Ec. subst c'.
+    unfold block_of in Hin. apply filter_In in Hin as [Hin _]. unfold nonread in Hin. apply filter_In in Hin as [Hin _].
+    apply in_map_iff in Hin as [c'' [Ec Hin]]. injection Ec as _ ->.
+    rewrite forallb_forall in Hc. now apply Hc.
+  Qed.
+
+  Lemma own_block : forall b, b < 3 -> block_ok w (map snd (block_of b (nonread w own))) = true.
+  Proof.
+    intros b Hb. destruct (top_shape w tsf Htop) as [_ [B0 [B1 [B2 [H0 [H1 [H2 E]]]]]]].
+    unfold own. rewrite E. unfold nonread, block_of. rewrite filter_comm.
+    fold (block_of b (map (pair 0) B0 ++ map (pair 1) B1 ++ map (pair 2) B2)).
+    rewrite !block_of_app.
+    destruct b as [|[|[|b]]]; [| | |lia].
+    - rewrite block_of_same, !block_of_other, !app_nil_r by lia.
+      fold (nonread w (map (pair 0) B0)). rewrite nonread_pair. now apply block_ok_filter.
+    - rewrite block_of_same, !block_of_other, app_nil_r by lia. cbn [List.app].
+      fold (nonread w (map (pair 1) B1)). rewrite nonread_pair. now apply block_ok_filter.
+    - rewrite block_of_same, !block_of_other by lia. cbn [List.app].
+      fold (nonread w (map (pair 2) B2)). rewrite nonread_pair. now apply block_ok_filter.
+  Qed.
+
+  Lemma flat_block_ok : forall b, b < 3 -> block_ok w (flat_block w t dir own items b) = true.
+  Proof.
+    intros b Hb. unfold flat_block. apply block_ok_app; [now apply own_block|].
+    apply forallb_forall. intros c Hin. apply in_flat_map in Hin as [it [Hit Hin]].
+    rewrite Forall_forall in Hitems. specialize (Hitems it Hit).
+    assert (H := sub_cards_ok b it Hitems). rewrite forallb_forall in H. now apply H.
+  Qed.
+
+  Lemma ALL_nonread : Forall (fun tc => negb (is_name (card_rc w (snd tc))) = true) ALL.
+  Proof.
+    unfold ALL. apply Forall_app. split; [apply Forall_filter_self|].
+    apply Forall_flat_map_intro. apply Forall_forall. intros it _. apply Forall_filter_self.
+  Qed.
+
+  Lemma ALL_no_rcerr : Forall (fun tc => negb (is_rcerr (card_rc w (snd tc))) = true) ALL.
+  Proof.
+    unfold ALL. apply Forall_app. split.
+    - apply Forall_filter. destruct (top_shape w tsf Htop) as [Hok _]. unfold sfile_ok in Hok.
+      apply andb_true_iff in Hok as [_ Hok]. apply andb_true_iff in Hok as [_ H3].
+      rewrite <- (sfile_tcards_snd 0) in H3. now apply forallb_map_Forall in H3.
+    - apply Forall_flat_map_intro. eapply Forall_impl; [|exact Hitems]. intros it Hit.
+      apply Forall_filter. destruct (item_cards_shape it Hit) as [bt [S [E [_ H3]]]]. rewrite E.
+      apply Forall_map_intro. cbn [snd]. apply Forall_forall. rewrite forallb_forall in H3. exact H3.
+  Qed.
+
+  Lemma flat_ok : sfile_ok w (flatten w t top tsf n) = true.
+  Proof.
+    unfold sfile_ok. rewrite <- (sfile_tcards_snd 0), flat_tcards.
+    unfold flatten. fold dir own q0 C items. cbn [s_first s_more forallb fst snd].
+    rewrite !flat_block_ok by lia.
+    change (blank_line nl_line) with true. cbn [andb].
+    apply Forall_forallb_map. unfold by_blocks.
+    repeat (apply Forall_app; split); unfold block_of; apply Forall_filter; apply ALL_no_rcerr.
+  Qed.
+
+  Lemma flat_side :
+    ra_error (read_single w (front ++ render (flatten w t top tsf n))) = None /\
+    ycards (ra_yields (read_single w (front ++ render (flatten w t top tsf n)))) = map (cook_t w) (by_blocks ALL) /\
+    forall m ti, (forall X, read_front_matters (front ++ X) = mkFront m ti X) ->
+      ra_message (read_single w (front ++ render (flatten w t top tsf n))) = m /\
+      ra_title (read_single w (front ++ render (flatten w t top tsf n))) = ti.
+  Proof.
+    destruct Hfront as [m [ti Hf]]. unfold read_single. rewrite Hf. cbn [f_rest f_message f_title].
+    destruct (scan_render w _ 0 "" flat_ok) as [ys [Hs Hy]]. rewrite Hs. cbn [ra_error ra_yields ra_message ra_title].
+    split; [reflexivity|]. split.
+    - rewrite Hy, flat_tcards. f_equal. unfold nonread. apply filter_all.
+      unfold by_blocks. repeat (apply Forall_app; split); unfold block_of; apply Forall_filter; apply ALL_nonread.
+    - intros m' ti' Hf'. specialize (Hf' []). rewrite Hf in Hf'. injection Hf' as -> ->. split; reflexivity.
+  Qed.
+
+  Theorem readq_flatten : forall fuel,
+    gen_atG C n q0 = [] -> List.length items <= fuel ->
+    let r := read_all_ft w ft top fuel in
+    let r1 := read_single w (front ++ render (flatten w t top tsf n)) in
+    ra_error r = None /\ ra_error r1 = None /\
+    by_blocks (ycards (ra_yields r)) = ycards (ra_yields r1) /\
+    ra_message r = ra_message r1 /\ ra_title r = ra_title r1.
+  Proof.
+    intros fuel Hg Hlen r r1. destruct (tree_side fuel Hg Hlen) as [He [Hy Hmt]].
+    destruct flat_side as [He1 [Hy1 Hmt1]]. destruct Hfront as [m [ti Hf]].
+    destruct (Hmt m ti Hf) as [Hm Ht]. destruct (Hmt1 m ti Hf) as [Hm1 Ht1].
+    unfold r, r1. rewrite He, He1, Hy, Hy1, Hm, Ht, Hm1, Ht1.
+    repeat split. apply by_blocks_map_fst. intros x. reflexivity.
+  Qed.
+End Flatten.
